@@ -9,6 +9,7 @@ import (
 	"math/rand"
 	"net/http"
 	"os"
+	"regexp"
 	"strconv"
 	"strings"
 	"testing"
@@ -144,6 +145,34 @@ func TestSplitNTwoModel(t *testing.T) {
 		if len(p) != 2 || p[0] != s[:k] || p[1] != s[k+len(sep):] {
 			t.Fatalf("SplitN(%q, %q, 2) = %q contradicts the model", s, sep, p)
 		}
+	}
+}
+
+// assumed contract of (*regexp.Regexp).Split for the literal pattern `!?=` and n == 2: no "=" gives the string itself; otherwise
+// the cut is at the first "=", and a "!" right before it belongs to the separator
+func TestSplitBangEqModel(t *testing.T) {
+	r := rng()
+	re := regexp.MustCompile("!?=")
+	for i := 0; i < 50000; i++ {
+		s := randStr(r, "A!=/^", 9)
+		p := re.Split(s, 2)
+		if !strings.Contains(s, "=") {
+			if len(p) != 1 || p[0] != s {
+				t.Fatalf("Split(%q) = %q contradicts the model", s, p)
+			}
+			continue
+		}
+		k := strings.Index(s, "=")
+		first := s[:k]
+		if k >= 1 && s[k-1:k] == "!" {
+			first = s[:k-1]
+		}
+		if len(p) != 2 || p[0] != first || p[1] != s[k+1:] {
+			t.Fatalf("Split(%q) = %q contradicts the model (want %q, %q)", s, p, first, s[k+1:])
+		}
+	}
+	if strings.ToUpper("") != "" || strings.ToLower("") != "" {
+		t.Fatal("case mapping of the empty string")
 	}
 }
 
